@@ -99,6 +99,7 @@ c08.append(job("send-fails",".","VH_ClientSendFail",["C08/"],{},Q,expect=["C08/s
 c08.append(job("receive-fails-hard",".","VH_ClientSendFail",["C08/"],{"recvfail":1},Q,expect=["C08/receive-failed"],bounds="each of the 12 command methods with the 1st, 2nd or 3rd Receive failing with ENOBUFS/EBADF (outside the property's EINTR/EAGAIN clause): no panic, and nil is returned only if the kernel acknowledged every request with 0"))
 C["C08"]={"jobs":c08,"assumptions":CLIENT_ASSUME,"outside":["the real kernel and socket","more than 2 unsolicited records per wait","Receive returning several messages at once","rule payloads longer than 3-4 bytes (content is only copied)"]}
 C["C16"]={"jobs":[job("setters",".","VH_ClientSetters",["C16/"],{},Q,bounds="7 setters x both wait modes with full-range symbolic arguments (uint32/int32/bool/FailureMode), GetStatus request"),
+   job("setters-after-getstatus",".","VH_ClientSetters",["C16/"],{"afterget":1},Q,bounds="as setters, after a GetStatus answered with 32/36/40/44 bytes on the same client"),
    job("setters-recv-error",".","VH_ClientSetters",["C16/"],{"recvfail":1},Q,bounds="as setters, with the 1st or 2nd Receive of the call failing with ENOBUFS/EBADF/ECONNREFUSED: still exactly one well-formed request"),
    job("constants",".","VH_Constants",["C16/"],{},Q,bounds="closed terms: exported constants against UAPI values (linux/audit.h)"),
    job("wire-0-64",".","VH_StatusWire",["C16/"],{"maxlen":64},Q,bounds="FromWireFormat: every buffer length 0..64 with symbolic contents, receiver pre-filled with symbolic garbage"),
@@ -149,11 +150,11 @@ KT={"saddr":2,"argc":7,"a0":7,"a1":7,"sig":1,"obj":8,"name":8,"res":9,"acct":9,"
 KW={"syscall":1,"a0":2,"a1":2,"argc":3}
 for i,k in enumerate(KEYS):
     ml = 3 if k=="syscall" else 4
-    kw5 = dict(loop_cap=3000) if k in ("argc","a0","a1") else {}
+    kw5 = dict(loop_cap=400) if k in ("argc","a0","a1") else {}
     p5 = {"key":i,"maxlen":ml,"type":KT.get(k,0),"with":KW.get(k,0)}
     if kw5: p5["budget_is_violation"]=1
     c05.append(job(f"field-{k}","auparse","VH_FieldTotal",["C05/"],p5,QO,**kw5,
-        bounds=("(a loop that runs more than 3000 times on these inputs counts as not terminating: C05/unbounded-work) " if kw5 else "")+f"{TYPES[KT.get(k,0)]} record with {k}=<v>, v of 0..{ml} symbolic ASCII bytes, unquoted / double- / single-quoted"+(" plus the companion field" if k in KW else "")))
+        bounds=("(a loop that runs more than 400 times on these inputs counts as not terminating: C05/unbounded-work) " if kw5 else "")+f"{TYPES[KT.get(k,0)]} record with {k}=<v>, v of 0..{ml} symbolic ASCII bytes, unquoted / double- / single-quoted"+(" plus the companion field" if k in KW else "")))
     c05.append(job(f"field5-{k}","auparse","VH_FieldTotal",["C05/"],{"key":i,"maxlen":5 if k!="syscall" else 4,"type":KT.get(k,0),"with":KW.get(k,0)},T,bounds=f"{k}=<v>, v of 0..5 symbolic ASCII bytes (syscall: 0..4)"))
 for na,nn in [(1,"e-acute"),(2,"ff"),(3,"80fe"),(4,"euro")]:
     for k in ("key","cwd","exe","name","a0","proctitle","saddr"):
